@@ -188,6 +188,10 @@ func Prove(secretKey []byte, alpha []byte) ([]byte, []byte, error) {
 	sScalar := edwards25519.NewScalar()
 	sScalar.MultiplyAdd(cScalar, xScalar, kScalar)
 	sBytes := sScalar.Bytes()
+	if verifEnabled {
+		verifTrace("prove", Y.Bytes(), H.Bytes(), Gamma.Bytes(), kScalar.Bytes(),
+			U.Bytes(), V.Bytes(), cBytes, sBytes)
+	}
 
 	// Step 9: Encode proof: Gamma_bytes (32) || c_bytes (16) || s_bytes (32) = 80 bytes
 	var proof [ProofSize]byte
@@ -407,6 +411,10 @@ func verify(Y *edwards25519.Point, pi []byte, alpha []byte) (bool, error) {
 	V.Subtract(tmp1, tmp2)
 
 	cprime := hashPoints(H, Gamma, U, V)
+	if verifEnabled {
+		verifTrace("verify", Y.Bytes(), H.Bytes(), Gamma.Bytes(), U.Bytes(), V.Bytes(),
+			cScalarArr[:], cprime.Bytes(), sScalarArr[:])
+	}
 
 	cmp := subtle.ConstantTimeCompare(cScalarArr[:], cprime.Bytes())
 	return cmp == 1, nil
